@@ -6,6 +6,7 @@ package main
 import (
 	"fmt"
 	"math/big"
+	"math/bits"
 	"sort"
 
 	"github.com/tuneinsight/lattigo/v6/core/rlwe"
@@ -85,7 +86,9 @@ func c04Packing(c *Ctx) {
 		{
 			m := c04SmallVec(c, ps.N(), 1<<17)
 			e := c04SmallVec(c, ps.N(), 3)
-			ct := ps.mkCt(sk, m, e, [][][]uint64{ps.randRows(c, lvl)}, true)
+			splitNTT := c.rng.Intn(2) == 0
+			c.Count("split:ntt" + c04B2s(splitNTT))
+			ct := ps.mkCt(sk, m, e, [][][]uint64{ps.randRows(c, lvl)}, splitNTT)
 			var ev, od *rlwe.Ciphertext
 			res := Try(func() string {
 				var err error
@@ -102,16 +105,22 @@ func c04Packing(c *Ctx) {
 				for j := range me {
 					me[j], mo[j] = m[2*j], m[2*j+1]
 				}
-				c04ProbeNoise(c, half, "split_even_decrypts", args, ev, ski[logN-1], me, bound, class)
-				c04ProbeNoise(c, half, "split_odd_decrypts", args, od, ski[logN-1], mo, bound, class)
+				sclass := class
+				if sclass == "" && !splitNTT {
+					sclass = "C04-ringpacking-nonNTT-input"
+				}
+				c04ProbeNoise(c, half, "split_even_decrypts", args, ev, ski[logN-1], me, bound, sclass)
+				c04ProbeNoise(c, half, "split_odd_decrypts", args, od, ski[logN-1], mo, bound, sclass)
 			}
 		}
 		// ---- Merge
 		{
 			me := c04SmallVec(c, half.N(), 1<<17)
 			mo := c04SmallVec(c, half.N(), 1<<17)
-			cte := half.mkCt(ski[logN-1], me, c04SmallVec(c, half.N(), 3), [][][]uint64{half.randRows(c, lvl)}, true)
-			cto := half.mkCt(ski[logN-1], mo, c04SmallVec(c, half.N(), 3), [][][]uint64{half.randRows(c, lvl)}, true)
+			mergeNTT := c.rng.Intn(2) == 0
+			c.Count("merge:ntt" + c04B2s(mergeNTT))
+			cte := half.mkCt(ski[logN-1], me, c04SmallVec(c, half.N(), 3), [][][]uint64{half.randRows(c, lvl)}, mergeNTT)
+			cto := half.mkCt(ski[logN-1], mo, c04SmallVec(c, half.N(), 3), [][][]uint64{half.randRows(c, lvl)}, mergeNTT)
 			var ctN *rlwe.Ciphertext
 			res := Try(func() string {
 				var err error
@@ -128,70 +137,266 @@ func c04Packing(c *Ctx) {
 					m[2*j], m[2*j+1] = me[j], mo[j]
 				}
 				b2 := new(big.Int).Add(bound, big.NewInt(3)) // two input noises
-				c04ProbeNoise(c, ps, "merge_decrypts", args, ctN, sk, m, b2, class)
+				mclass := class
+				if mclass == "" && !mergeNTT {
+					mclass = "C04-ringpacking-nonNTT-input"
+				}
+				c04ProbeNoise(c, ps, "merge_decrypts", args, ctN, sk, m, b2, mclass)
 			}
 		}
-		// ---- Extract (non naive): constant coefficient of ciphertext i = coefficient i of the input
+		// ---- Extract / ExtractNaive / Expand / Repack∘Extract over families of index sets.
+		// Extract (non naive): ciphertext i decrypts to EXACTLY c[i]*X^0 — every other coefficient is zero within noise.
+		rpk.GenExtractEvaluationKeys(rpk.Parameters[logN], sk, cfg.evkParams()) // for Expand at the large ring
+		eval = rlwe.NewRingPackingEvaluator(rpk)
 		{
-			m := c04SmallVec(c, ps.N(), 1<<17)
-			e := c04SmallVec(c, ps.N(), 3)
-			ct := ps.mkCt(sk, m, e, [][][]uint64{ps.randRows(c, lvl)}, true)
-			gap := 1 + c.rng.Intn(5)
-			idx := map[int]bool{}
-			for i := 0; i*gap < ps.N(); i++ {
-				idx[i*gap] = true
+			N := ps.N()
+			type idxSet struct {
+				name string
+				idx  []int
 			}
-			var cts map[int]*rlwe.Ciphertext
-			res := Try(func() string {
-				var err error
-				if cts, err = eval.Extract(ct, idx); err != nil {
-					return "err"
+			var sets []idxSet
+			all := make([]int, N)
+			for i := range all {
+				all[i] = i
+			}
+			sets = append(sets, idxSet{"all", all})
+			sets = append(sets, idxSet{"single", []int{c.rng.Intn(N)}})
+			for k := 1; k < logN; k++ {
+				if !c.Thorough() && k != 1 && k != logN-minLogN && k != logN-minLogN+1 && c.rng.Intn(2) == 0 {
+					continue
 				}
-				return "ok"
-			})
-			if res != "ok" {
-				c.Probe("extract_completes", args, "C04-extract-"+res, "Extract "+res)
-			} else {
-				// generous bound: (logN - minLogN) ring switches + logMin automorphisms, each noise doubled along the
-				// expansion tree, times N for the trace normalisation
-				nks := int64(2*logN + 4)
-				b := new(big.Int).Mul(bound, big.NewInt(nks*int64(ps.N())*int64(ps.N())))
-				detail := ""
-				if len(cts) != len(idx) {
-					detail = fmt.Sprintf("got %d ciphertexts for %d indices", len(cts), len(idx))
+				var v []int
+				for i := 0; i < N; i += 1 << k {
+					v = append(v, i)
 				}
-				worst := new(big.Int)
-				halfQ := c04ProdBig(ps.Q[:lvl+1])
-				halfQ.Rsh(halfQ, 1)
-				vac := new(big.Int).Add(b, big.NewInt(1<<18)).Cmp(halfQ) >= 0
-				if !vac && detail == "" {
-					for i := range idx {
-						cti, ok := cts[i]
-						if !ok {
-							detail = fmt.Sprintf("index %d missing", i)
+				sets = append(sets, idxSet{fmt.Sprintf("gap2^%d", k), v})
+			}
+			{
+				gap := []int{3, 5, 6, 12}[c.rng.Intn(4)]
+				var v []int
+				for i := c.rng.Intn(gap); i < N; i += gap {
+					v = append(v, i)
+				}
+				sets = append(sets, idxSet{fmt.Sprintf("ap%d", gap), v})
+				var w []int
+				for i := 0; i < N; i++ {
+					if c.rng.Intn(3) == 0 {
+						w = append(w, i)
+					}
+				}
+				if len(w) == 0 {
+					w = []int{0}
+				}
+				sets = append(sets, idxSet{"random", w})
+			}
+			nks := int64(2*logN + 4)
+			b := new(big.Int).Mul(new(big.Int).Add(bound, big.NewInt(8)), big.NewInt(nks*int64(N)*int64(N)))
+			halfQ := c04ProdBig(ps.Q[:lvl+1])
+			halfQ.Rsh(halfQ, 1)
+			vac := new(big.Int).Add(b, big.NewInt(1<<18)).Cmp(halfQ) >= 0
+			for _, st := range sets {
+				if vac {
+					c.Count("probe-vacuous:extract_decrypts")
+					break
+				}
+				m := c04SmallVec(c, N, 1<<17)
+				ntt := c.rng.Intn(2) == 0
+				mk := func() *rlwe.Ciphertext {
+					return ps.mkCt(sk, m, c04SmallVec(c, N, 3), [][][]uint64{ps.randRows(c, lvl)}, ntt)
+				}
+				idx := map[int]bool{}
+				for _, i := range st.idx {
+					idx[i] = true
+				}
+				sargs := fmt.Sprintf("%s set=%s n=%d ntt=%s", args, st.name, len(st.idx), c04B2s(ntt))
+				c.Count("extract:set:" + st.name)
+				// root-cause tags of the two ring-packing findings: coefficient-domain input; index set with an offset
+				// (not every index is a multiple of 2^v2(smallest gap))
+				offsetSet := false
+				{
+					minDiff, or := 0, 0
+					for k, i := range st.idx {
+						or |= i
+						if k > 0 && (minDiff == 0 || st.idx[k]-st.idx[k-1] < minDiff) {
+							minDiff = st.idx[k] - st.idx[k-1]
+						}
+					}
+					if minDiff > 0 && or != 0 && bits.TrailingZeros(uint(or)) < bits.TrailingZeros(uint(minDiff)) {
+						offsetSet = true
+					}
+				}
+				key := func(name string) string {
+					switch {
+					case class != "":
+						return class
+					case offsetSet:
+						return "C04-ringpacking-offset-index-set"
+					case !ntt:
+						return "C04-ringpacking-nonNTT-input"
+					}
+					return "C04-" + name
+				}
+				check := func(name string, cts map[int]*rlwe.Ciphertext, allCoeffs bool) bool {
+					detail := ""
+					if len(cts) != len(idx) {
+						detail = fmt.Sprintf("got %d ciphertexts for %d indices", len(cts), len(idx))
+					}
+					worst := new(big.Int)
+					at := -1
+					for _, i := range st.idx {
+						if detail != "" {
 							break
 						}
-						want := make([]int64, small.N())
-						want[0] = m[i]
-						// only the constant coefficient is specified: compare it alone
-						n0 := small.noiseConst(cti, ski[minLogN], want[0])
-						if n0.Cmp(worst) > 0 {
-							worst.Set(n0)
+						cti, ok := cts[i]
+						switch {
+						case !ok || cti == nil:
+							detail = fmt.Sprintf("index %d missing", i)
+						case cti.LogN() != minLogN || cti.Level() != lvl || cti.Degree() != 1:
+							detail = fmt.Sprintf("index %d: LogN=%d level=%d degree=%d (want %d, %d, 1)", i, cti.LogN(), cti.Level(), cti.Degree(), minLogN, lvl)
+						default:
+							var n0 *big.Int
+							if allCoeffs {
+								want := make([]int64, small.N())
+								want[0] = m[i]
+								n0 = small.noiseOf(cti, ski[minLogN], want)
+							} else {
+								n0 = small.noiseConst(cti, ski[minLogN], m[i])
+							}
+							if n0.Cmp(worst) > 0 {
+								worst.Set(n0)
+								at = i
+							}
 						}
 					}
 					if detail == "" && worst.Cmp(b) > 0 {
-						detail = fmt.Sprintf("noise=%s(bits=%d) bound=%s(bits=%d)", worst, worst.BitLen(), b, b.BitLen())
+						detail = fmt.Sprintf("noise=%s(bits=%d) at index %d bound=%s(bits=%d)", worst, worst.BitLen(), at, b, b.BitLen())
+					}
+					c.Probe(name, sargs, key(name), detail)
+					return detail == ""
+				}
+				want := make([]int64, N)
+				for _, i := range st.idx {
+					want[i] = m[i]
+				}
+				b2 := new(big.Int).Mul(b, big.NewInt(4))
+				// Extract, then Repack / RepackNaive of the extracted ciphertexts
+				for _, naiveRepack := range []bool{false, true} {
+					var cts map[int]*rlwe.Ciphertext
+					res := Try(func() string {
+						var err error
+						if cts, err = eval.Extract(mk(), idx); err != nil {
+							return "err"
+						}
+						return "ok"
+					})
+					if res != "ok" {
+						c.Probe("extract_completes", sargs, key("extract-"+res), "Extract "+res)
+						continue
+					}
+					if !naiveRepack && !check("extract_decrypts", cts, true) {
+						continue
+					}
+					var back *rlwe.Ciphertext
+					name := "repack_extract_roundtrip"
+					if naiveRepack {
+						name = "repacknaive_extract_roundtrip"
+					}
+					res = Try(func() string {
+						var err error
+						if naiveRepack {
+							back, err = eval.RepackNaive(cts)
+						} else {
+							back, err = eval.Repack(cts)
+						}
+						if err != nil || back == nil {
+							return "err"
+						}
+						return "ok"
+					})
+					if res != "ok" {
+						// Repack refuses index sets with an odd class without even class: known, separate finding key
+						c.Count("repack-after-extract:" + res)
+						continue
+					}
+					c04ProbeNoiseAt(c, ps, name, sargs, back, sk, want, nil, b2, key(name))
+				}
+				// ExtractNaive: only the constant coefficient is specified; then Repack restores the selection
+				{
+					var cts map[int]*rlwe.Ciphertext
+					res := Try(func() string {
+						var err error
+						if cts, err = eval.ExtractNaive(mk(), idx); err != nil {
+							return "err"
+						}
+						return "ok"
+					})
+					if res != "ok" {
+						c.Probe("extract_completes", "naive "+sargs, key("extractnaive-"+res), "ExtractNaive "+res)
+					} else if check("extractnaive_decrypts", cts, false) {
+						var back *rlwe.Ciphertext
+						if r := Try(func() string {
+							var err error
+							if back, err = eval.Repack(cts); err != nil || back == nil {
+								return "err"
+							}
+							return "ok"
+						}); r == "ok" {
+							c04ProbeNoiseAt(c, ps, "repack_extractnaive_roundtrip", sargs, back, sk, want, nil, b2, key("repack_extractnaive_roundtrip"))
+						}
 					}
 				}
-				if vac {
-					c.Count("probe-vacuous:extract_decrypts")
-				} else {
-					key := "C04-extract_decrypts"
-					if class != "" {
-						key = class
-					}
-					c.Probe("extract_decrypts", fmt.Sprintf("%s gap=%d", args, gap), key, detail)
+			}
+			// Expand at the large ring for EVERY logGap: outputs exactly at the multiples of 2^logGap, each c[i]*X^0
+			for g := 0; g <= logN && !vac; g++ {
+				if !c.Thorough() && g > 3 && c.rng.Intn(2) == 0 {
+					continue
 				}
+				m := c04SmallVec(c, N, 1<<17)
+				ntt := c.rng.Intn(2) == 0
+				ct := ps.mkCt(sk, m, c04SmallVec(c, N, 3), [][][]uint64{ps.randRows(c, lvl)}, ntt)
+				var cts map[int]*rlwe.Ciphertext
+				res := Try(func() string {
+					var err error
+					if cts, err = eval.Expand(ct, g); err != nil {
+						return "err"
+					}
+					return "ok"
+				})
+				eargs := fmt.Sprintf("%s logGap=%d ntt=%s", args, g, c04B2s(ntt))
+				if res != "ok" {
+					c.Probe("expand_completes", eargs, "C04-ringexpand-"+res, "Expand "+res)
+					continue
+				}
+				var keys []int
+				for k, v := range cts {
+					if v != nil {
+						keys = append(keys, k)
+					}
+				}
+				sort.Ints(keys)
+				// tie: the index set Expand returns (model: KS.expandKeys, the loop's index arithmetic)
+				c.Emit(fmt.Sprintf("expandidx %d %d", logN, g), IVec(keys))
+				c.Count("expandidx")
+				detail := ""
+				worst := new(big.Int)
+				for _, k := range keys {
+					want := make([]int64, N)
+					if k >= 0 && k < N {
+						want[0] = m[k]
+					}
+					n0 := ps.noiseOf(cts[k], sk, want)
+					if n0.Cmp(worst) > 0 {
+						worst.Set(n0)
+					}
+				}
+				if worst.Cmp(b) > 0 {
+					detail = fmt.Sprintf("noise=%s(bits=%d) bound=%s(bits=%d)", worst, worst.BitLen(), b, b.BitLen())
+				}
+				k2 := "C04-ringexpand_decrypts"
+				if class != "" {
+					k2 = class
+				}
+				c.Probe("ringexpand_decrypts", eargs, k2, detail)
 			}
 		}
 
@@ -240,6 +445,24 @@ func c04Packing(c *Ctx) {
 					ms[k] = c04SmallVec(c, ps.N(), 1<<17)
 					cts[k] = ps.mkCt(sk, ms[k], c04SmallVec(c, ps.N(), 3), [][][]uint64{ps.randRows(c, lvl)}, ntt)
 				}
+				// zeroGarbageSlots = false with an OFFSET index list (e.g. {1, 3}): no power of two divides every
+				// index, nothing may be discarded: the result is specified on every position
+				offset := 0
+				if !zero && g >= 1 && rep == 1 {
+					offset = 1 + c.rng.Intn((1<<g)-1)
+					cts2 := map[int]*rlwe.Ciphertext{}
+					ms2 := map[int][]int64{}
+					for i, k := range keyList {
+						keyList[i] = k + offset
+						cts2[k+offset], ms2[k+offset] = cts[k], ms[k]
+					}
+					or := 0
+					for _, k := range keyList {
+						or |= k
+					}
+					cts, ms, g = cts2, ms2, bits.TrailingZeros(uint(or)) // only the multiples of 2^v2(all keys) are specified
+					c.Count("pack:offset-keys")
+				}
 				sort.Ints(keyList)
 				pargs := fmt.Sprintf("%s L=%d zero=%s keys=%s ntt=%s", args, L, c04B2s(zero), IVec(keyList), c04B2s(ntt))
 				var out *rlwe.Ciphertext
@@ -252,7 +475,11 @@ func c04Packing(c *Ctx) {
 				})
 				c.Count(fmt.Sprintf("pack:zero%s:g%d:ntt%s", c04B2s(zero), g, c04B2s(ntt)))
 				if res != "ok" || out == nil {
-					c.Probe("pack_completes", pargs, "C04-pack-"+res, "Pack "+res)
+					k := "C04-pack-" + res
+					if offset != 0 {
+						k = "C04-ringpacking-offset-index-set"
+					}
+					c.Probe("pack_completes", pargs, k, "Pack "+res+" (nil result or error)")
 					continue
 				}
 				want := make([]int64, ps.N())
@@ -268,7 +495,11 @@ func c04Packing(c *Ctx) {
 					}
 				}
 				b := new(big.Int).Mul(new(big.Int).Add(bound, big.NewInt(8)), big.NewInt(int64(4*ps.N())))
-				c04ProbeNoiseAt(c, ps, "pack_decrypts", pargs, out, sk, want, pos, b, class)
+				pclass := class
+				if offset != 0 && pclass == "" {
+					pclass = "C04-ringpacking-offset-index-set"
+				}
+				c04ProbeNoiseAt(c, ps, "pack_decrypts", pargs, out, sk, want, pos, b, pclass)
 			}
 		}
 
